@@ -12,13 +12,15 @@ Histories are arbitrary lists of operations (`run init ops`): any interleaving o
 register / update / deregister, opt-in / opt-out, task creation, phase-one / phase-two submissions,
 challenges, epoch ends and arbitrary changes of the epoch numbers, with arbitrary payloads.
 
-Four clauses do NOT hold for the unchanged code; each has its full statement as a `def … : Prop`,
-a machine-checked counter-example (`…_fails`) that the harness replays on the real application, and
-the `_partial` theorem that is true:
-  * F-11b `C20_no_halt_full`       — an empty-but-present phase-one signature halts the chain;
-  * F-20a `C20_optin_min_full`     — `int64(MinSelfDelegation)` wraps for minima ≥ 2^63;
-  * F-20b `C20_challenge_full`     — a challenge with a wrong task hash "succeeds" at any time;
-  * F-20c `C20_stats_nonsigners_full` — `Difference` is symmetric: an outsider that signed is also a non-signer.
+Four clauses did NOT hold for the code as first examined and were repaired in the repository
+(fix: commits for F-11b, F-20a, F-20b, F-20c); the model follows the repaired code, the former
+`def …_full : Prop` are now theorems, and for each finding the pre-fix shape is kept as a
+machine-checked regression counter-example (`C20_regress_…`) that the harness's directed scenarios
+replay on the real application (same `sig`s: a re-introduction is a VIOLATION):
+  * F-11b `C20_no_halt_full`          — an empty-but-present phase-one signature halted the chain;
+  * F-20a `C20_optin_min_full`        — `int64(MinSelfDelegation)` wrapped for minima ≥ 2^63;
+  * F-20b `C20_challenge_full`        — a challenge with a wrong task hash "succeeded" at any time;
+  * F-20c `C20_stats_nonsigners_full` — `Difference` is symmetric: an outsider that signed was also a non-signer.
 -/
 namespace ExoVerif.Avs
 open ExoVerif
@@ -66,12 +68,12 @@ theorem C20_task_lookup_order_irrelevant (ops : List Op) (hw : ∀ o ∈ ops, o.
 
 /-- An opt-in (through the AVS keeper's OperatorOptAction or OperatorKeeper.OptIn directly) is
 accepted only from a registered operator, only for a registered AVS, only if the operator is not
-opted in already, and only if its self-delegated USD value is at least the minimum the code
-compares with, `LegacyNewDec(int64(MinSelfDelegation))`. -/
+opted in already, and only if its self-delegated USD value is at least the AVS's configured
+minimum (`MinSelfDelegation` USD, compared as 18-decimal integers). -/
 theorem C20_optin_requires (s s' : State) (d : Bool) (op : String) (avs : Addr) (u : Option Int)
     (h : step s (.opt d 1 op avs u) = (s', "ok")) :
     op ∈ s.operators ∧ ∃ a usd, KV.find? s.avss avs = some a ∧ u = some usd ∧
-      toI64 a.minSelf * PREC ≤ usd ∧ isOptedIn s op avs = false ∧ isOptedIn s' op avs = true := by
+      (a.minSelf : Int) * PREC ≤ usd ∧ isOptedIn s op avs = false ∧ isOptedIn s' op avs = true := by
   unfold step at h
   by_cases hh : s.halted = true
   · simp [hh] at h
@@ -84,42 +86,28 @@ theorem C20_optin_requires (s s' : State) (d : Bool) (op : String) (avs : Addr) 
       subst this
       simp [isOptedIn, KV.find?_set_same]
 
-/-- full clause: the self-delegated value meets the AVS's configured minimum -/
-def C20_optin_min_full : Prop :=
-  ∀ (s s' : State) (d : Bool) (op : String) (avs : Addr) (u : Option Int),
-    step s (.opt d 1 op avs u) = (s', "ok") →
-    ∃ a usd, KV.find? s.avss avs = some a ∧ u = some usd ∧ (a.minSelf : Int) * PREC ≤ usd
-
-private def wrapAVS : AVS :=
-  { addr := "A", name := "n", taskAddr := "T", owners := [], assets := [], minSelf := 2 ^ 63, unbonding := 0,
-    epochId := "minute", startingEpoch := 1 }
-private def wrapState : State := { operators := ["o"], avss := [("A", wrapAVS)] }
-
-/-- F-20a: with MinSelfDelegation = 2^63 an operator whose self-delegated value is 0 opts in. -/
-theorem C20_optin_min_full_fails : ¬ C20_optin_min_full := by
-  intro h
-  have hstep : step wrapState (.opt true 1 "o" "A" (some 0)) =
-      ({ wrapState with opted := KV.set wrapState.opted ("o", "A") true }, "ok") := by decide
-  obtain ⟨a, usd, h1, h2, h3⟩ := h _ _ _ _ _ _ hstep
-  have ha : a = wrapAVS := by
-    have : KV.find? wrapState.avss "A" = some wrapAVS := by decide
-    rw [this] at h1; exact (Option.some.inj h1).symm
-  have hu : usd = 0 := (Option.some.inj h2).symm
-  subst ha; subst hu
-  revert h3; decide
-
-/-- what holds: for every minimum below 2^63 the configured minimum itself is met -/
-theorem C20_optin_min_partial (s s' : State) (d : Bool) (op : String) (avs : Addr) (u : Option Int)
+/-- full clause (holds since the repair of F-20a): the self-delegated value meets the AVS's
+configured minimum, for every uint64 minimum -/
+theorem C20_optin_min_full (s s' : State) (d : Bool) (op : String) (avs : Addr) (u : Option Int)
     (h : step s (.opt d 1 op avs u) = (s', "ok")) :
-    ∃ a usd, KV.find? s.avss avs = some a ∧ u = some usd ∧ (a.minSelf < 2 ^ 63 → (a.minSelf : Int) * PREC ≤ usd) := by
+    ∃ a usd, KV.find? s.avss avs = some a ∧ u = some usd ∧ (a.minSelf : Int) * PREC ≤ usd := by
   obtain ⟨_, a, usd, h1, h2, h3, _, _⟩ := C20_optin_requires s s' d op avs u h
-  refine ⟨a, usd, h1, h2, ?_⟩
-  intro hlt
-  have : toI64 a.minSelf = (a.minSelf : Int) := by
-    unfold toI64
-    have h64 : a.minSelf % 2 ^ 64 = a.minSelf := Nat.mod_eq_of_lt (by omega)
-    rw [h64]; simp [hlt]
-  rw [this] at h3; exact h3
+  exact ⟨a, usd, h1, h2, h3⟩
+
+/-- pre-fix shape of GetAVSMinimumSelfDelegation: `LegacyNewDec(int64(min))` -/
+def minSelfRawPre (n : Nat) : Int := toI64 n * PREC
+
+/-- F-20a regression counter-example: with the pre-fix conversion a minimum of 2^63 USD compared as
+a negative number, so a self-delegated value of 0 passed `!SelfUSDValue.LT(min)`; the exact value
+does not. -/
+theorem C20_regress_F20a_int64_wrap :
+    minSelfRawPre (2 ^ 63) ≤ 0 ∧ ¬ ((2 ^ 63 : Nat) : Int) * PREC ≤ 0 ∧
+    ∀ n : Nat, n < 2 ^ 63 → minSelfRawPre n = (n : Int) * PREC := by
+  refine ⟨by decide, by decide, ?_⟩
+  intro n hn
+  unfold minSelfRawPre toI64
+  have h64 : n % 2 ^ 64 = n := Nat.mod_eq_of_lt (by omega)
+  rw [h64]; simp [hn]
 
 /-! ## task identifiers -/
 
@@ -167,13 +155,13 @@ theorem C20_submit_requires_operator_and_key (s s' : State) (i : Submit) (h : st
     · exact ⟨h1, h2, h3, ⟨task, h4⟩, h6.elim (fun x => Or.inl x.1) (fun x => Or.inr x.1)⟩
 
 /-- Phase one is accepted only until the response period ends (current epoch ≤ starting epoch +
-response period, boundary included), only with a signature and without a response, and only if no
+response period, boundary included), only with a non-empty signature and without a response, and only if no
 result of that operator for that task is stored yet. -/
 theorem C20_phase1_window_once (s s' : State) (i : Submit) (hs : i.stage = "1")
     (h : step s (.submit i) = (s', "ok")) :
     ∃ task cur, KV.find? s.tasks (i.taskAddr, i.id) = some task ∧ epochOfTaskAddr s i.taskAddr = some cur ∧
       cur ≤ task.startingEpoch + task.resp ∧ KV.has s.results (i.op, i.taskAddr, i.id) = false ∧
-      i.sig.isSome = true ∧ i.response = none ∧ i.respHash = "" ∧ s' = afterOne s i := by
+      (norm i.sig).isSome = true ∧ i.response = none ∧ i.respHash = "" ∧ s' = afterOne s i := by
   unfold step at h
   by_cases hh : s.halted = true
   · simp [hh] at h
@@ -242,8 +230,7 @@ theorem C20_challenge_window_once (s s' : State) (c : Challenge) (r : String)
   · simp [hh] at h; rw [h.1] at hrec; exact absurd rfl hrec
   · simp only [hh, Bool.false_eq_true, if_false] at h
     have hs' : s' = (challenge s c).1 := by rw [h]
-    rcases challenge_spec s c with ⟨h2, _⟩ | ⟨_, _, _, h2⟩ | ⟨task, res, resp, g1, g2, g3, g4, g5⟩
-    · rw [hs', h2] at hrec; exact absurd rfl hrec
+    rcases challenge_spec s c with ⟨h2, _⟩ | ⟨task, res, resp, g1, g2, g3, g4, g5⟩
     · rw [hs', h2] at hrec; exact absurd rfl hrec
     · rcases challengeCore_spec s c task with ⟨h2, _⟩ | ⟨k1, k2, ⟨cur, k3, k4, k5⟩, k6⟩
       · rw [hs', g5, h2] at hrec; exact absurd rfl hrec
@@ -256,95 +243,117 @@ theorem C20_challenge_window_once (s s' : State) (c : Challenge) (r : String)
 theorem C20_challenge_once_history (ops : List Op) : (run init ops).challenged.Nodup :=
   (chInv_run ops init chInv_init).1
 
-/-- full clause in the property's words: a challenge is ACCEPTED (the keeper returns success, the
-precompile returns true) only during the challenge period -/
-def C20_challenge_full : Prop :=
-  ∀ (s s' : State) (c : Challenge), step s (.challenge c) = (s', "ok") →
-    ∃ task cur, KV.find? s.tasks (c.taskAddr, c.id) = some task ∧ epochOfTaskAddr s task.taskAddr = some cur ∧
-      task.startingEpoch + task.resp + task.stat < cur ∧ cur ≤ task.startingEpoch + task.resp + task.stat + task.chal
-
-private def chTask : Task :=
-  { taskAddr := "T", id := 1, name := "t", hash := "aa", resp := 1, stat := 1, chal := 1, startingEpoch := 3,
-    optIn := [], signed := [], noSigned := [], powers := [], totalPower := 0, actualThreshold := 0 }
-private def chState : State :=
-  { epochs := [("minute", 2)], avss := [("A", { wrapAVS with minSelf := 0 })], tasks := [(("T", 1), chTask)] }
-private def chBad : Challenge :=
-  { taskAddr := "T", id := 1, op := "o", taskHash := "WRONG", abiHashOk := false, callerOk := true, caller := "c" }
-
-/-- F-20b: a challenge that names a wrong task hash is answered with success in epoch 2 although
-the challenge period is (5, 6]; nothing is recorded (`errorsmod.Wrap(nil, …)` is nil). -/
-theorem C20_challenge_full_fails : ¬ C20_challenge_full := by
-  intro h
-  have hstep : step chState (.challenge chBad) = (chState, "ok") := by decide
-  obtain ⟨task, cur, h1, h2, h3, _⟩ := h _ _ _ hstep
-  have ht : task = chTask := by
-    have : KV.find? chState.tasks (chBad.taskAddr, chBad.id) = some chTask := by decide
-    rw [this] at h1; exact (Option.some.inj h1).symm
-  subst ht
-  have hc : epochOfTaskAddr chState chTask.taskAddr = some 2 := by decide
-  rw [hc] at h2
-  have : cur = 2 := (Option.some.inj h2).symm
-  subst this
-  revert h3; decide
-
-/-- what holds: when the task hash is the right one, acceptance implies the window, the matching
-stored phase-two result, no earlier challenge, and that the challenge is recorded. -/
-theorem C20_challenge_accept_partial (s s' : State) (c : Challenge)
-    (hhash : ∀ task, KV.find? s.tasks (c.taskAddr, c.id) = some task → task.hash = c.taskHash)
-    (h : step s (.challenge c) = (s', "ok")) :
-    ∃ task cur, KV.find? s.tasks (c.taskAddr, c.id) = some task ∧ epochOfTaskAddr s task.taskAddr = some cur ∧
+/-- full clause in the property's words (holds since the repair of F-20b): a challenge is ACCEPTED
+(the keeper returns success, the precompile returns true) only during the challenge period, only
+with the task's own hash, only if none was accepted before — and then it is recorded. -/
+theorem C20_challenge_full (s s' : State) (c : Challenge) (h : step s (.challenge c) = (s', "ok")) :
+    ∃ task cur, KV.find? s.tasks (c.taskAddr, c.id) = some task ∧ task.hash = c.taskHash ∧
+      epochOfTaskAddr s task.taskAddr = some cur ∧
       task.startingEpoch + task.resp + task.stat < cur ∧ cur ≤ task.startingEpoch + task.resp + task.stat + task.chal ∧
       KV.has s.challenges (c.op, c.taskAddr, c.id) = false ∧ KV.has s'.challenges (c.op, c.taskAddr, c.id) = true := by
-  have h0 := h
   unfold step at h
   by_cases hh : s.halted = true
   · simp [hh] at h
   · simp only [hh, Bool.false_eq_true, if_false] at h
-    rcases challenge_spec s c with ⟨_, h2⟩ | ⟨task, g1, g2, _⟩ | ⟨task, res, resp, g1, g2, g3, g4, g5⟩
+    rcases challenge_spec s c with ⟨_, h2⟩ | ⟨task, res, resp, g1, g2, g3, g4, g5⟩
     · rw [h] at h2; exact absurd rfl h2
-    · exact absurd (hhash task g1) g2
     · rcases challengeCore_spec s c task with ⟨_, h2⟩ | ⟨k1, k2, ⟨cur, k3, k4, k5⟩, k6⟩
       · rw [← g5, h] at h2; exact absurd rfl h2
       · rw [g5, k6] at h
         have hs : s' = afterChallenge s c := (Prod.mk.inj h).1.symm
-        refine ⟨task, cur, g1, k3, ?_, ?_, k2, ?_⟩
+        refine ⟨task, cur, g1, g2, k3, ?_, ?_, k2, ?_⟩
         · simp only [challengeTooSoon, decide_eq_false_iff_not] at k4; omega
         · simp only [challengeTooLate, decide_eq_false_iff_not] at k5; omega
         · subst hs; simp [afterChallenge, KV.has, KV.find?_set_same]
+
+private def wrapAVS : AVS :=
+  { addr := "A", name := "n", taskAddr := "T", owners := [], assets := [], minSelf := 0, unbonding := 0,
+    epochId := "minute", startingEpoch := 1 }
+private def chTask : Task :=
+  { taskAddr := "T", id := 1, name := "t", hash := "aa", resp := 1, stat := 1, chal := 1, startingEpoch := 3,
+    optIn := [], signed := [], noSigned := [], powers := [], totalPower := 0, actualThreshold := 0 }
+private def chState : State :=
+  { epochs := [("minute", 2)], avss := [("A", wrapAVS)], tasks := [(("T", 1), chTask)] }
+private def chBad : Challenge :=
+  { taskAddr := "T", id := 1, op := "o", taskHash := "WRONG", abiHashOk := false, callerOk := true, caller := "c" }
+
+/-- pre-fix shape of RaiseAndResolveChallenge: the hash-mismatch branch returned
+`errorsmod.Wrap(nil, …)`, i.e. nil -/
+def challengePre (s : State) (c : Challenge) : State × String :=
+  match KV.find? s.tasks (c.taskAddr, c.id) with
+  | none => (s, "rej")
+  | some task => if task.hash ≠ c.taskHash then (s, "ok") else challenge s c
+
+/-- F-20b regression counter-example: in epoch 2, with the challenge period (5, 6], a challenge
+naming a wrong task hash was answered with success by the pre-fix code and recorded nothing; the
+repaired code answers ErrHashValue. -/
+theorem C20_regress_F20b_wrong_hash :
+    challengePre chState chBad = (chState, "ok") ∧ challenge chState chBad = (chState, "ErrHashValue") := by
+  decide
 
 /-! ## statistics at the end of the statistical period -/
 
 /-- What the epoch hook writes for a task: the signer list is exactly the (sorted) operators with a
 stored result for that task carrying a signature — i.e. exactly the accepted results —, each with
 the active power the operator module reports, the task total is the AVS's voting power, and the
-non-signer list is `Difference(optIn, signers)`. Everything else of the task is unchanged. -/
+non-signers are exactly the task's opted-in operators that are not signers. Everything else of the
+task is unchanged. -/
 theorem C20_stats_reflect_accepted (s : State) (pw : Powers) (t t' : Task) (h : statTask s pw t = some t') :
     (∀ o, o ∈ t'.signed ↔ ∃ p ∈ s.results, p.2.taskAddr = t.taskAddr ∧ p.2.id = t.id ∧ p.2.sig.isSome = true ∧ p.2.op = o) ∧
     t'.powers = t'.signed.map (fun o => (o, KV.getD pw.active (avsAddrOfTask s t.taskAddr, o) 0)) ∧
     t'.totalPower = KV.getD pw.avsTotal (avsAddrOfTask s t.taskAddr) 0 ∧
-    (∀ o, o ∈ t'.noSigned ↔ (o ∈ t.optIn ∧ o ∉ t'.signed) ∨ (o ∈ t'.signed ∧ o ∉ t.optIn)) ∧
+    (∀ o, o ∈ t'.noSigned ↔ (o ∈ t.optIn ∧ o ∉ t'.signed)) ∧
     t'.optIn = t.optIn ∧ t'.taskAddr = t.taskAddr ∧ t'.id = t.id := by
   obtain ⟨h1, _, h3, h4, h5, h6, h7, h8, _⟩ := statTask_spec s pw t t' h
   refine ⟨?_, h4, h5, ?_, h6, h7, h8⟩
   · intro o; rw [h1]; exact mem_signersOf s t.taskAddr t.id o
-  · intro o; rw [h3]; exact mem_difference t.optIn t'.signed o
+  · intro o; rw [h3]; exact mem_subtract t.optIn t'.signed o
 
-/-- The hook as a whole, after every history: when `AfterEpochEnd(id, n)` does not panic, the stored
-record of every task whose statistical period ends with epoch `n` of its AVS's identifier (and that
-has at least one stored result) is exactly the record described by `C20_stats_reflect_accepted`,
-computed from the results stored before the hook; every other task, and every result, is untouched. -/
-theorem C20_stats_epoch_end (ops : List Op) (id : String) (n : Int) (pw : Powers) (s' : State)
-    (h : epochEnd (run init ops) id n pw = (s', "ok")) :
+/-- full clause (holds since the repair of F-20c): the non-signers are the opted-in operators that
+did not sign — in particular no signer is a non-signer -/
+theorem C20_stats_nonsigners_full (s : State) (pw : Powers) (t t' : Task) (h : statTask s pw t = some t') :
+    (∀ o, o ∈ t'.noSigned ↔ (o ∈ t.optIn ∧ o ∉ t'.signed)) ∧ (∀ o ∈ t'.signed, o ∉ t'.noSigned) := by
+  have h1 := (C20_stats_reflect_accepted s pw t t' h).2.2.2.1
+  exact ⟨h1, fun o ho hn => ((h1 o).1 hn).2 ho⟩
+
+/-- F-20c regression counter-example: the pre-fix hook used the symmetric `types.Difference`; an
+operator outside the opted-in list that signed was then a non-signer too. `Subtract` is one-sided. -/
+theorem C20_regress_F20c_symmetric_difference :
+    "out" ∈ difference ["in"] ["in", "out"] ∧ subtract ["in"] ["in", "out"] = [] ∧
+    subtract ["a", "b", "c"] ["b"] = ["a", "c"] := by decide
+
+/-- After every history every stored result carries a (non-empty) signature, hence no due task
+that has a stored result is skipped by the hook. -/
+theorem C20_results_signed (ops : List Op) :
     let s := run init ops
+    (∀ p ∈ s.results, p.2.sig.isSome = true) ∧
+    (∀ (pw : Powers) (t : Task), hasResults s t = true → (statTask s pw t).isSome = true) := by
+  intro s
+  have hi : SigInv s := sigInv_run ops init resInv_init (by intro p hp; simp [init] at hp)
+  exact ⟨hi, fun pw t hh => statTask_isSome s pw t hi hh⟩
+
+/-- The hook as a whole, after every history: `AfterEpochEnd(id, n)` succeeds, the stored record of
+every task whose statistical period ends with epoch `n` of its AVS's identifier (and that has at
+least one stored result) is exactly the record described by `C20_stats_reflect_accepted`, computed
+from the results stored before the hook; every other task, and every result, is untouched. -/
+theorem C20_stats_epoch_end (ops : List Op) (id : String) (n : Int) (pw : Powers) :
+    let s := run init ops
+    let s' := (epochEnd s id n pw).1
+    (epochEnd s id n pw).2 = "ok" ∧
     (∀ kt ∈ dueTasks s id n, ∃ t', statTask s pw kt.2 = some t' ∧ KV.find? s'.tasks kt.1 = some t') ∧
     (∀ k, k ∉ (dueTasks s id n).map (·.1) → KV.find? s'.tasks k = KV.find? s.tasks k) ∧
     s'.results = s.results := by
-  intro s
+  intro s s'
   have hnd : KV.NoDup s.tasks := tasksNoDup_run ops init (by simp [TasksNoDup, init, KV.NoDup, KV.keys])
-  obtain ⟨_, h2, h3⟩ := epochEnd_spec s s' id n pw hnd h
-  refine ⟨h2, h3, ?_⟩
-  have := (epochEnd_frame s id n pw).2.2.2.1
-  rw [h] at this; exact this
+  obtain ⟨h1, _, h2, _, h3⟩ := epochEnd_spec s id n pw hnd
+  refine ⟨h1, ?_, h3, (epochEnd_frame s id n pw).2.2.2.1⟩
+  intro kt hkt
+  have hh : hasResults s kt.2 = true := by
+    simp only [dueTasks, List.mem_filter, Bool.and_eq_true] at hkt; exact hkt.2.2
+  have hsome := (C20_results_signed ops).2 pw kt.2 hh
+  cases hs : statTask s pw kt.2 with
+  | none => rw [hs] at hsome; simp at hsome
+  | some t' => exact ⟨t', rfl, h2 kt hkt t' hs⟩
 
 /-- a task is due exactly when the ended epoch is the last one of its statistical period, under the
 epoch identifier of the AVS that currently owns its task address -/
@@ -364,41 +373,12 @@ theorem C20_stats_due_iff (s : State) (id : String) (n : Int) (kt : (Addr × Nat
     refine ⟨h1, ?_, h3⟩
     simp [ha, h4, h5, statEnd]
 
-/-- full clause: the non-signers are the opted-in operators that did not sign -/
-def C20_stats_nonsigners_full : Prop :=
-  ∀ (s : State) (pw : Powers) (t t' : Task), statTask s pw t = some t' →
-    ∀ o, o ∈ t'.noSigned ↔ (o ∈ t.optIn ∧ o ∉ t'.signed)
-
-private def stState : State :=
-  { results := [(("out", "T", 1), { op := "out", taskAddr := "T", id := 1, stage := "1", sig := some "ab",
-                                     response := none, respHash := "" })] }
-
-/-- F-20c: an operator outside the task's opted-in list that submitted a result is recorded as a
-signer and as a non-signer. -/
-theorem C20_stats_nonsigners_full_fails : ¬ C20_stats_nonsigners_full := by
-  intro h
-  have hs : statTask stState ⟨[], []⟩ chTask =
-      some { chTask with signed := ["out"], noSigned := ["out"], powers := [("out", 0)] } := by decide
-  have := (h _ _ _ _ hs "out").1 (by decide)
-  revert this; decide
-
-/-- what holds: when every signer is one of the task's opted-in operators, the non-signers are
-exactly the opted-in operators without an accepted result. -/
-theorem C20_stats_nonsigners_partial (s : State) (pw : Powers) (t t' : Task) (h : statTask s pw t = some t')
-    (hsub : ∀ o ∈ t'.signed, o ∈ t.optIn) :
-    ∀ o, o ∈ t'.noSigned ↔ (o ∈ t.optIn ∧ o ∉ t'.signed) := by
-  intro o
-  rw [(C20_stats_reflect_accepted s pw t t' h).2.2.2.1 o]
-  constructor
-  · rintro (h1 | ⟨h1, h2⟩)
-    · exact h1
-    · exact absurd (hsub o h1) h2
-  · intro h1; exact Or.inl h1
-
 /-! ## the epoch hook and chain liveness (F-11b) -/
 
-/-- full clause: no history makes BeginBlock panic -/
-def C20_no_halt_full : Prop := ∀ ops : List Op, (∀ o ∈ ops, o.wf) → (run init ops).halted = false
+/-- full clause (holds since the repair of F-11b): no history — whatever it contains, empty-but-
+present signatures included — makes BeginBlock panic in the AVS epoch hook. -/
+theorem C20_no_halt_full (ops : List Op) : (run init ops).halted = false :=
+  no_halt_run ops init rfl
 
 private def haltOps : List Op :=
   [ .setEpochs [("minute", 1)], .setEnv ["o"] ["asset"],
@@ -410,18 +390,21 @@ private def haltOps : List Op :=
               respHash := "", respTaskId := none, blsOk := false, digest := "" },
     .epochEnd "minute" 4 ⟨[], []⟩ ]
 
-/-- F-11b: register an AVS, register a BLS key, create a task, submit phase one with an
-empty-but-present signature (accepted), reach the end of the statistical period: the hook
-dereferences a nil task and the chain halts. -/
-theorem C20_no_halt_full_fails : ¬ C20_no_halt_full := by
-  intro h
-  have := h haltOps (by decide)
-  revert this; decide
+/-- a store that still holds a pre-fix result without signature (it reads back as nil) -/
+private def legacyState : State :=
+  { epochs := [("minute", 4)], avss := [("A", wrapAVS)], tasks := [(("T", 1), { chTask with startingEpoch := 2 })],
+    results := [(("o", "T", 1), { op := "o", taskAddr := "T", id := 1, stage := "1", sig := none, response := none, respHash := "" })] }
 
-/-- what holds: as long as no submission carries an empty-but-present signature, no history —
-whatever else it contains — makes the AVS epoch hook panic. -/
-theorem C20_no_halt_partial (ops : List Op) (hw : ∀ o ∈ ops, o.sigWf) : (run init ops).halted = false :=
-  no_halt_run ops init resInv_init (by intro p hp; simp [init] at hp) rfl hw
+/-- F-11b regression counter-example. Pre-fix: phase one only refused a nil signature
+(`x.isNone`), so the empty-but-present one passed, was stored as nil, made the group of its task
+signer-less (`statTask = none`), and in that case the hook dereferenced a nil task: panic in
+BeginBlock. Post-fix: the history that halted the chain ends with no stored result and a live
+chain, and a store that already holds such a result is skipped by the hook. -/
+theorem C20_regress_F11b_empty_signature :
+    (some "" : Option String).isNone = false ∧ (norm (some "")).isNone = true ∧
+    (run init haltOps).results = [] ∧ (run init haltOps).halted = false ∧
+    statTask legacyState ⟨[], []⟩ { chTask with startingEpoch := 2 } = none ∧
+    epochEnd legacyState "minute" 4 ⟨[], []⟩ = (legacyState, "ok") := by decide
 
 /-! ## non-vacuity: a concrete history in which every kind of acceptance happens -/
 
@@ -442,7 +425,6 @@ private def okOps : List Op :=
     .challenge { taskAddr := "T", id := 1, op := "o", taskHash := "aa", abiHashOk := true, callerOk := true, caller := "c" } ]
 
 example : ∀ o ∈ okOps, o.wf := by decide
-example : ∀ o ∈ okOps, o.sigWf := by decide
 -- one AVS, one opt-in, task #1, a phase-two result, one recorded challenge, statistics written:
 example : (run init okOps).avss.length = 1 ∧ (run init okOps).created = [("T", 1)] ∧
     (run init okOps).accepted1.length = 1 ∧ (run init okOps).challenged = [("o", "T", 1)] ∧
